@@ -10,7 +10,9 @@ R (totality): TLC enumerates every token string up to length 4 (quick) / 5 (thor
    action of spec/GrammarTrace.tla accepts.
 R (meaning): TLC generates abstract queries (depth <= 3) and prints each in three ways; the harness
    parses the texts in default-OR and conjunction mode and searches a corpus the specification
-   defines; TLC recomputes the match sets.
+   defines; TLC recomputes the match sets.  Marker x operator interaction: every chain of 2..3
+   operands joined by AND / OR / juxtaposition with each operand bare or marked + / - / NOT
+   (624 shapes, exhaustive), and random such chains inside the generated queries.
 Recorded findings are reproduced by small dedicated runs."""
 import json
 import os
@@ -156,7 +158,7 @@ def meaning_key(run):
 
 def meaning_nontrivial(run):
     q = run[-1].get("q")
-    return bool(q) and q[0] in ("bool", "bin", "grp", "boost", "rng", "in", "ph")
+    return bool(q) and q[0] in ("bool", "bin", "chain", "grp", "boost", "rng", "in", "ph")
 
 
 def meaning(ctx, n):
@@ -177,6 +179,20 @@ def meaning(ctx, n):
                           "corpus_docs": len(corpus["docs"])}
     log(f"[R] meaning: {len(cases)} abstract queries x 3 texts x 2 modes x (strict, lenient): {ok} accepted, {bad} rejected")
     return ev, corpus
+
+
+def chains(ctx, corpus):
+    """every chain of 2..3 words over AND / OR / juxtaposition with each operand bare or marked + / - / NOT"""
+    r = gen_raw(ctx, "chains", timeout=300)
+    cases = [json.loads(el.tla_unescape(m.group(1))) for m in re.finditer(r'^<<\s*"CASE",\s*"(.*)"\s*>>$', r.out, re.M)]
+    if len(cases) < 600:
+        raise vlib.ToolError("Gen_Grammar (chains) produced too few cases")
+    ev, _ = drive(ctx, {"kind": "meaning", "corpus": corpus}, cases, "chains")
+    ok, bad = el.judge(ctx, MODULE, CFG, per_event_runs(ev), "chains", key=meaning_key, nontrivial=meaning_nontrivial, timeout=600)
+    c = next(c for c in cases if c["q"][2] == ["OR", "AND"] and [i[0] for i in c["q"][1]] == ["", "-", ""])
+    ctx.sample({"kind": "marker x operator chain (exhaustive family)", "q": c["q"], "texts": ["".join(map(chr, t)) for t in c["texts"]]})
+    ctx.cov["marker_operator_chains"] = {"shapes": len(cases), "texts_parsed": 3 * len(cases), "modes": 2, "accepted": ok, "rejected": bad, "exhaustive": True}
+    log(f"[R] chains: all {len(cases)} marker x operator shapes (2..3 operands; AND, OR, juxtaposition; bare, +, -, NOT) x 3 texts x 2 modes: {ok} accepted, {bad} rejected")
 
 
 def T(s):
@@ -244,10 +260,12 @@ def run(ctx):
                         "`field:*` (exists) is accepted by the grammar and refused by QueryParser as an unsupported query: the specification follows the code there",
                         "text fields of the corpus are not fast fields (a range over a fast text field compares whole values, not words)"]
     vlib.mc_check(ctx, "MC_Grammar", "MC_Grammar_neg.cfg", expect_violation="OrBindsTighter", timeout=120, workers=2)
+    vlib.mc_check(ctx, "MC_Grammar", "MC_Grammar_neg2.cfg", expect_violation="ExclusionIgnored", timeout=120, workers=2)
     vlib.mc_check(ctx, "MC_Grammar", "MC_Grammar.cfg", timeout=600, workers=6)
     header, n_enum, tot_ev = totality_enumeration(ctx)
     n_long = totality_long(ctx, header, 1500 if ctx.quick else 30000)
     mean_ev, corpus = meaning(ctx, 1500 if ctx.quick else 25000)
+    chains(ctx, corpus)
     known_finding_runs(ctx, header, corpus)
     binding_selftest(ctx, tot_ev, mean_ev)
     # distinct strings of the enumeration are distinct states of TLC's enumeration (measured there)
